@@ -363,11 +363,7 @@ def is_none_const(n) -> bool:
 
 
 def _needle_lines(src: str, needle: str) -> List[int]:
-    out, i = [], src.find(needle)
-    while i != -1:
-        out.append(src.count("\n", 0, i) + 1)
-        i = src.find(needle, i + 1)
-    return out
+    return [i for i, line in enumerate(src.split("\n"), 1) if needle in line]
 
 
 def call_sites(index, target: FuncInfo, modules=None) -> List[Tuple[FuncInfo, ast.Call]]:
